@@ -57,7 +57,7 @@ ObsFails(o, S) ==
 \cup (IF "qmaxlen" \in DOMAIN o /\ o.qmaxlen # s.maxlen THEN {"CQLen"} ELSE {})
 
 Note(e, f) ==
-  /\ tfailed' = IF Cardinality(tfailed) < 40 THEN tfailed \cup {<<e.tid, e.id, cl>> : cl \in f} ELSE tfailed
+  /\ tfailed' = tfailed \cup {<<e.tid, e.id, cl>> : cl \in {c2 \in f : Cardinality({x \in tfailed : x[3] = c2}) < 8}}
   /\ tnfail' = tnfail + Cardinality(f)
 
 Consume ==
